@@ -54,6 +54,11 @@ def play_case(case_id: str, seed: int, force_variant=None, profile=None, max_ops
     extra['deck_ok'] = meta['deck_ok']
     if profile and 'tune' in profile:
         tune.update(profile['tune'])
+    if meta.get('director') == 'rule96':
+        bb = max(kw['raw_blinds_or_straddles'])
+        tune.update(director='rule96', short_cap=7 * bb, p_bad=0.0, p_probe=0.6, p_can=0.5, unknown=False)
+    elif meta.get('director') == 'exact_deck':
+        tune.update(fold=0.03, call=5.0, p_bad=rng.choice([0.0, 0.05]), unknown=False)
     meta['style'] = tune['style']
     mons = [m() for m in monitors]
     sess = impl.Session(kw, extra, mons)
